@@ -146,6 +146,10 @@ impl Default for UptimeTracker {
 }
 
 fn get_unix_time_ms() -> Option<u64> {
+    #[cfg(feature = "verif-hooks")]
+    if let Some(ms) = verif_hooks::clock_override_ms() {
+        return Some(ms);
+    }
     let now = SystemTime::now();
     now.duration_since(UNIX_EPOCH)
         .ok()
@@ -513,4 +517,57 @@ pub fn check_ts_tcp(
     }
 
     (None, None)
+}
+
+/// Verification hooks (feature `verif-hooks`, default off): public wrappers around the private
+/// frequency/uptime kernels and a settable clock for replaying solver counterexamples natively.
+#[cfg(feature = "verif-hooks")]
+pub mod verif_hooks {
+    use super::*;
+    use std::sync::atomic::{AtomicU64, Ordering};
+
+    static CLOCK_SET: AtomicU64 = AtomicU64::new(0);
+    static CLOCK_MS: AtomicU64 = AtomicU64::new(0);
+
+    /// Make `get_unix_time_ms` return `ms` from now on (process-wide).
+    pub fn set_clock_ms(ms: u64) {
+        CLOCK_MS.store(ms, Ordering::SeqCst);
+        CLOCK_SET.store(1, Ordering::SeqCst);
+    }
+
+    /// Return to the system clock.
+    pub fn clear_clock() {
+        CLOCK_SET.store(0, Ordering::SeqCst);
+    }
+
+    pub(super) fn clock_override_ms() -> Option<u64> {
+        if CLOCK_SET.load(Ordering::SeqCst) == 1 {
+            Some(CLOCK_MS.load(Ordering::SeqCst))
+        } else {
+            None
+        }
+    }
+
+    pub fn unix_time_ms() -> Option<u64> {
+        get_unix_time_ms()
+    }
+
+    pub fn frequency_p0f_style(
+        current: &TcpTimestamp,
+        reference: &TcpTimestamp,
+    ) -> Result<f64, String> {
+        calculate_frequency_p0f_style(current, reference)
+    }
+
+    pub fn guess(raw_freq: f64, base_guess: f64, tolerance: f64) -> Option<f64> {
+        guess_frequency(raw_freq, base_guess, tolerance)
+    }
+
+    pub fn round_p0f_style(freq: f64) -> u32 {
+        round_frequency_p0f_style(freq)
+    }
+
+    pub fn uptime_from_frequency(ts_val: u32, freq_hz: f64) -> ObservableUptime {
+        calculate_uptime_from_frequency(ts_val, freq_hz)
+    }
 }
